@@ -862,6 +862,12 @@ class CeiloChunk(AbstractChunk):
             # What are the valid points ?
             valids = tmp['height'].notna() * valids
 
+            # A bundle may boil down to a single hit (i.e. a 1-hit slice overlapping only with
+            # slices that already belong to another bundle). There is nothing to cluster in that
+            # case: the hit will inherit its slice id further down.
+            if valids.sum() < 2:
+                continue
+
             # Run the clustering
             nlabels, labels = cluster.clusterize(
                 tmp[['dt', 'height']][valids].to_numpy(), algo='agglomerative',
